@@ -78,8 +78,9 @@ def build_harness():
     return exe
 
 
-def pvh(args, timeout=3600, check=True, env=None):
-    exe = build_harness()
+def pvh(args, timeout=3600, check=True, env=None, exe_name="pvh"):
+    """Run a harness binary (harness/src/bin/<exe_name>.rs)."""
+    exe = os.path.join(os.path.dirname(build_harness()), exe_name)
     p = subprocess.run([exe] + [str(a) for a in args], stdout=subprocess.PIPE, stderr=subprocess.PIPE,
                        text=True, timeout=timeout, env=env_with_tools(env))
     if check and p.returncode != 0:
